@@ -549,10 +549,7 @@ def _lst(s: str) -> List[str]:
 
 def _case_legs(ctx, case, model_out: Optional[str] = None):
     from pytreenet.util.tensor_splitting import SVDParameters
-    try:
-        ttn, info = build_legs(case)
-    except Exception as e:                      # noqa: BLE001
-        raise
+    ttn, info = build_legs(case)
     if model_out is None:
         model_out = ctx.lean.batch([legs_model_line(case, info)])[0]
     num, names = info["num"], info["names"]
@@ -571,18 +568,7 @@ def _case_legs(ctx, case, model_out: Optional[str] = None):
         ctx.corr_fail(case, f"model answers {model_out!r} for an admissible pair")
         return
 
-    # label -> dimension table (labels as the model prints them)
-    def dim_of(label: str, bonddim: Optional[int] = None) -> Optional[int]:
-        if label == "b":
-            return bonddim
-        if label[0] == "v":
-            other = back[int(label[1:])]
-            return None if other is None else _edge_dim(info, other, owner[0])
-        if label[0] in "ogi":
-            return opendim[label]
-        raise ValueError(label)
-
-    owner = [None]
+    # dimension of every open / gate label (labels as the model prints them)
     opendim: Dict[str, int] = {}
     kk = 0
     for nd in (n1, n2):
@@ -615,6 +601,9 @@ def _case_legs(ctx, case, model_out: Optional[str] = None):
 
     v_before, labels_before = dense.ttn_dense(ttn)
     probs: List[str] = []
+    # the gate: one leg pair per physical leg, in the order (legs of the first-named node, legs of the second)
+    odims = list(info["open"][n1]) + list(info["open"][n2])
+    nopen = len(odims)
     try:
         # 1. legs_before_combination
         s1, s2 = ttn.legs_before_combination(id1, id2)
@@ -633,8 +622,6 @@ def _case_legs(ctx, case, model_out: Optional[str] = None):
         got = (node.parent, list(node.children), [int(x) for x in ttn.tensors["contr"].shape])
         if want != got:
             probs.append(f"contract_nodes: implementation (parent, children, shape) {got}, model {want}")
-        nopen = node.nopen_legs()
-        odims = [int(x) for x in ttn.tensors["contr"].shape[len(got[2]) - nopen:]]
         # 3. absorb a generic operator (different matrix on every leg, so that binding order shows)
         nprng = np.random.default_rng(case["seed"] + 1)
         mats = [gen.rand_tensor(nprng, (d, d)) for d in odims]
@@ -688,10 +675,6 @@ def _case_legs(ctx, case, model_out: Optional[str] = None):
         bind = model.get("bind", ["?"])[0]
         ctx.oracle_fail(case, f"contract/absorb/split on ({id1},{id2}) [{case['orient']}-first]: result differs from the gate "
                               f"applied to the physical legs in named order, |diff| = {err:.3g}; model binding {bind}")
-
-
-def _edge_dim(info, a, b):
-    return info["bond"].get((a, b), info["bond"].get((b, a)))
 
 
 # ===================================================================== swap cases
